@@ -25,8 +25,8 @@ COMMON := -std=c++11 -g -fno-omit-frame-pointer -DTASMANIAN_VERIF -w
 FLAGS_asan  := -O1 -fsanitize=address,undefined -fno-sanitize=null -fno-sanitize-recover=undefined
 FLAGS_plain := -O2
 FLAGS_omp   := -O1 -fopenmp -fsanitize=address,undefined -fno-sanitize=null -fno-sanitize-recover=undefined
-FLAGS_ompt  := -O1 -fopenmp -fsanitize=thread
-FLAGS_tsan  := -O1 -fsanitize=thread
+FLAGS_ompt  := -O1 -fopenmp -fsanitize=thread -DVS_NO_INTERPOSE
+FLAGS_tsan  := -O1 -fsanitize=thread -DVS_NO_INTERPOSE
 FLAGS_inst  := -O1 -fsanitize=address,undefined -fno-sanitize=null -fno-sanitize-recover=undefined -finstrument-functions \
                -finstrument-functions-exclude-file-list=/usr/include,/usr/lib,engines/
 LDFLAGS_asan  := -fsanitize=address,undefined
